@@ -289,11 +289,15 @@ def work_fixed(task):
     lab = task
     res = Res()
     f, ar = FIXED[lab]
-    for modes in [(0, 1)[:ar], (1, 0)[:ar]]:
+    # 3-mode register, and a 12-mode register with two-digit mode indices (10 sorts before 2 as a string)
+    for modes, nreg in [((0, 1)[:ar], 3), ((1, 0)[:ar], 3), ((10, 2)[:ar], 12), ((11, 10)[:ar], 12)]:
         if ar == 1 and modes == (1,):
             modes = (2,)
-        case = {"kind": "fixed", "label": lab, "modes": list(modes)}
-        P = sf.Program(3)
+        if ar > 2:
+            if nreg == 12:
+                continue
+        case = {"kind": "fixed", "label": lab, "modes": list(modes), "register": nreg}
+        P = sf.Program(nreg)
         try:
             with warnings.catch_warnings():
                 warnings.simplefilter("ignore")
@@ -302,7 +306,7 @@ def work_fixed(task):
         except Exception:
             res.stats["not-constructible"] += 1
             continue
-        if judge(P, lab.split("(")[0], res, case, 3):
+        if judge(P, lab.split("(")[0], res, case, nreg):
             res.nt += 1
     return res
 
